@@ -750,15 +750,12 @@ package mq
 // ---------------------------------------------------------------- WellFormed (C17)
 
 //@ func (*Publish).WellFormed
-//@   inline
 //@   ensures (result != nil) == ((len(p.topicName) == 0 && p.topicAlias == 0) || (((p.fixed & 6) == 2 || (p.fixed & 6) == 4) && p.packetID == 0) || (p.fixed & 6) == 6)    #C17
 
 //@ func (*TopicFilter).WellFormed
-//@   inline
 //@   ensures (result != nil) == (len(c.filter) == 0 || (c.options & 3) == 3)                                       #C17
 
 //@ func (*Subscribe).WellFormed
-//@   inline
 //@   ensures (result != nil) == (len(p.filters) == 0 || (p.subscriptionID != nil && uint(*p.subscriptionID) > 268435455) || (exists j in 0..len(p.filters): len(p.filters[j].filter) == 0 || (p.filters[j].options & 3) == 3))   #C17
 //@   loop 0:
 //@     invariant rangeindex < len(p.filters)
